@@ -192,10 +192,13 @@ def binop(E, op, a, b, node, fr):
         return Frac(a, b)
     if isinstance(op, (ast.FloorDiv, ast.Mod)):
         E.may_raise("ZeroDivisionError", y == 0, line)
+        ys = z3.simplify(y)
+        if not is_pos(ys) and not z3.is_int_value(ys) and E.entails(ys > 0):
+            # the divisor is positive on this path: python's // and % are z3's div and mod
+            return SV(x / ys if isinstance(op, ast.FloorDiv) else x % ys, TInt)
         q = floordiv(x, y)
         if isinstance(op, ast.FloorDiv):
             return SV(q, TInt)
-        ys = z3.simplify(y)
         if is_pos(ys):
             return SV(x % ys, TInt)
         return SV(x - y * q, TInt)
@@ -1191,19 +1194,24 @@ def call_contract(E, c, key, fnode, mod, clsnode, args, kwargs, fr, node):
         if not E.spec_mode:
             for r in c.requires:
                 E.oblige("call_pre[%s]" % short, E.spec_bool(r, env), line, "precondition of %s: %s" % (short, r))
-        # exceptions the callee may raise
+        # exceptions the callee may raise: on the raising path the callee's frame is havoced like on the normal path and
+        # only what the contract's raise_ensures says is known afterwards
+        raised_exc = None
         for exc, cond in c.raises.items():
             when = cond["when"] if isinstance(cond, dict) else cond
             iff = isinstance(cond, dict) and cond.get("iff")
             t = E.spec_bool(when, env)
             if E.spec_mode:
                 continue
-            if iff:
-                E.may_raise(exc, t, line, "%s may raise %s" % (short, exc))
-            else:
+            if not iff:
                 # may raise (not must): nondeterministic within the condition
-                nd = E.fresh("raises_" + exc, TBool)
-                E.may_raise(exc, z3.And(t, nd.t), line, "%s may raise %s" % (short, exc))
+                t = z3.And(t, E.fresh("raises_" + exc, TBool).t)
+            if E.catches(exc):
+                if E.fork(t):
+                    raised_exc = exc
+                    break
+            else:
+                E.oblige("no_%s" % exc, z3.Not(t), line, "%s may raise %s" % (short, exc))
         # frame: havoc what the callee may modify
         for m in c.modifies:
             v = env.get(m)
@@ -1222,17 +1230,29 @@ def call_contract(E, c, key, fnode, mod, clsnode, args, kwargs, fr, node):
                     E.setcell(v, E.havoc_cell(short + "." + m, cell))
         for g in c.modifies_ghost:
             E.ghostv[g] = E.fresh("ghost_" + g, E.ghostv[g].ty)
-        for p_, st_ in c.becomes.items():
+        for p_, st_ in (c.becomes.items() if raised_exc is None else ()):
             v = env.get(p_)
             if isinstance(v, Ref):
                 E.setcell(v, E.cell(E.fresh_of("%s.%s" % (short, p_), TObj(st_), assume_inv=False)))
+        if raised_exc is not None:
+            E.spec_role = "assume"
+            try:
+                for en in c.raise_ensures.get(raised_exc, []):
+                    E.assume(E.spec_bool(en, dict(env), old=True))
+            finally:
+                E.spec_role = "prove"
+            raise PyRaise(raised_exc, line)
         result = None
         if c.returns is not None:
             result = E.fresh_of("ret_" + short.replace(".", "_"), c.returns, assume_inv=False)
         env2 = dict(env)
         env2["result"] = result
-        for en in c.ensures:
-            E.assume(E.spec_bool(en, env2, old=True))
+        E.spec_role = "assume"
+        try:
+            for en in c.ensures:
+                E.assume(E.spec_bool(en, env2, old=True))
+        finally:
+            E.spec_role = "prove"
         return result
     finally:
         E.old_stack.pop()
